@@ -79,7 +79,7 @@ def handle (line : String) : String :=
   /- `main <cfg> <json>`: remove_comments, expand_plates, then the loop -/
   | "main" :: c :: toks => match parseCfg c, decodeAll toks with
     | some cfg, some j =>
-      match expandPlatesFuel (4 * size j + 1000) (size j + 10) (removeComments j) with
+      match preprocess (4 * size j + 1000) (size j + 10) j with
       | .error e => "plate-err " ++ showPlateErr e
       | .ok (.arr xs) =>
         let fuel := depthList xs + 2
